@@ -53,6 +53,24 @@ Proof.
   - inversion H; subst. eauto.
 Qed.
 
+(* The type the specification is called with is the layout's type, possibly under more options
+   (the model has already unwrapped an option node whose missing entries the specification carries along) *)
+Inductive optwrap : ty -> ty -> Prop :=
+| ow_refl T : optwrap T T
+| ow_opt T U : optwrap T U -> optwrap (TOpt T) U.
+Lemma ow_so_ty T U : optwrap T U -> so_ty T = so_ty U.
+Proof. induction 1; [reflexivity|exact IHoptwrap]. Qed.
+Lemma ow_er T U : optwrap T U -> er T = er U.
+Proof. induction 1; [reflexivity|exact IHoptwrap]. Qed.
+Lemma ow_strip T U : optwrap T (TOpt U) -> optwrap T U.
+Proof.
+  intros H. remember (TOpt U) as V eqn:EV. induction H as [T|T V H IH].
+  - subst. apply ow_opt, ow_refl.
+  - apply ow_opt, IH, EV.
+Qed.
+Lemma ow_minmax T U : optwrap T U -> minmax T = minmax U.
+Proof. induction 1; [reflexivity|exact IHoptwrap]. Qed.
+
 (* induction on types that sees through the field lists *)
 Section TyInd.
   Variable P : ty -> Prop.
@@ -102,22 +120,80 @@ Proof. intros H. unfold tdepth. rewrite (tdepth_list T sz t H). reflexivity. Qed
 
 (* ---------------------------------------------------------------- the fragment *)
 (* 1-d numeric leaves; ListOffset / ListArray / RegularArray at any depth; IndexedArray and the option
-   encodings; parameter nodes without __array__ *)
+   encodings; records; parameter nodes without __array__.
+   [rec_fields_ok]: a record directly under an IndexedArray / option node has no field that is itself an
+   IndexedArray / option node (projecting such a field would put an option node directly under another
+   one: the model does not simplify, so the projected layout would leave the valid layouts). *)
+Fixpoint rec_fields_ok (c : content) : bool :=
+  match c with
+  | Par _ _ c' => rec_fields_ok c'
+  | Record cs _ _ =>
+      (fix all (l : list content) : bool :=
+         match l with [] => true | f :: fs => negb (optionlike f) && rec_fields_ok f && all fs end) cs
+  | _ => true
+  end.
+Lemma rec_fields_ok_all cs :
+  (fix all (l : list content) : bool :=
+     match l with [] => true | f :: fs => negb (optionlike f) && rec_fields_ok f && all fs end) cs = true <->
+  Forall (fun f => optionlike f = false /\ rec_fields_ok f = true) cs.
+Proof.
+  induction cs as [|x xs IH]; [split; constructor|]. rewrite !andb_true_iff, IH, negb_true_iff. split.
+  - intros [[? ?] ?]. constructor; auto.
+  - intros H. inversion H as [|? ? [? ?] ?]; auto.
+Qed.
 Fixpoint gfrag (c : content) : bool :=
   match c with
   | Numpy _ shape _ => match shape with [_] => true | _ => false end
   | Empty => true
-  | ListOffset _ _ c' | ListA _ _ _ c' | Regular c' _ _ | Indexed _ _ c' | IndexedOption _ _ c'
-  | ByteMasked _ _ c' | BitMasked _ _ _ _ c' | Unmasked c' => gfrag c'
+  | ListOffset _ _ c' | ListA _ _ _ c' | Regular c' _ _ => gfrag c'
+  | Indexed _ _ c' | IndexedOption _ _ c' | ByteMasked _ _ c' | BitMasked _ _ _ _ c' | Unmasked c' =>
+      rec_fields_ok c' && gfrag c'
   | Par None _ c' => gfrag c'
+  | Record cs _ _ =>
+      (fix all (l : list content) : bool := match l with [] => true | x :: xs => gfrag x && all xs end) cs
   | _ => false
   end.
+Lemma gfrag_all cs :
+  (fix all (l : list content) : bool := match l with [] => true | x :: xs => gfrag x && all xs end) cs = true <->
+  Forall (fun x => gfrag x = true) cs.
+Proof.
+  induction cs as [|x xs IH]; [split; constructor|]. rewrite andb_true_iff, IH. split.
+  - intros [? ?]. constructor; assumption.
+  - intros H. inversion H; auto.
+Qed.
+Lemma gfrag_Record cs ks n : gfrag (Record cs ks n) = true <-> Forall (fun x => gfrag x = true) cs.
+Proof. cbn [gfrag]. apply gfrag_all. Qed.
+
+Lemma carry_rec_fields_ok c : forall ix c', carry c ix = Ok c' -> rec_fields_ok c' = rec_fields_ok c.
+Proof.
+  induction c as [dt shape data| |w o c IHc|w s e c IHc|c size zl IHc|w ix0 c IHc|w ix0 c IHc|m vw c IHc
+                 |m vw lsb n c IHc|c IHc|w t ix0 cs IHcs|cs ks n IHcs|arr rn c IHc] using content_ind';
+    intros ix c' H; try rewrite carry_Record in H; cbn [carry] in H.
+  - destruct shape as [|n dims]; [discriminate|]. apply bind_Ok in H as (rows & _ & H). inversion H. reflexivity.
+  - destruct ix; [|discriminate]. inversion H. reflexivity.
+  - apply bind_Ok in H as (s & _ & H). apply bind_Ok in H as (e & _ & H). inversion H. reflexivity.
+  - apply bind_Ok in H as (s' & _ & H). apply bind_Ok in H as (e' & _ & H). inversion H. reflexivity.
+  - apply bind_Ok in H as (nx & _ & H). apply bind_Ok in H as (c'' & Hc & H). inversion H. reflexivity.
+  - apply bind_Ok in H as (j & _ & H). inversion H. reflexivity.
+  - apply bind_Ok in H as (j & _ & H). inversion H. reflexivity.
+  - apply bind_Ok in H as (m' & _ & H). apply bind_Ok in H as (c'' & Hc & H). inversion H. reflexivity.
+  - apply bind_Ok in H as (bm & _ & H). apply bind_Ok in H as (m' & _ & H).
+    apply bind_Ok in H as (c'' & Hc & H). inversion H. reflexivity.
+  - apply bind_Ok in H as (c'' & Hc & H). inversion H. reflexivity.
+  - apply bind_Ok in H as (t' & _ & H). apply bind_Ok in H as (j & _ & H). inversion H. reflexivity.
+  - destruct (forallb _ ix); [|discriminate]. apply bind_Ok in H as (cs' & Hcs & H). inversion H. cbn [rec_fields_ok].
+    clear H H1. revert cs' Hcs. induction IHcs as [|x xs Hx _ IH]; intros cs' Hcs; cbn [mapM] in Hcs.
+    + inversion Hcs. reflexivity.
+    + apply bind_Ok in Hcs as (y & Hy & Hcs). apply bind_Ok in Hcs as (ys & Hys & Hcs). inversion Hcs; subst.
+      destruct (carry_class _ _ _ Hy) as [-> _]. rewrite (Hx _ _ Hy), (IH _ Hys). reflexivity.
+  - apply bind_Ok in H as (c'' & Hc & H). inversion H. cbn [rec_fields_ok]. apply (IHc _ _ Hc).
+Qed.
 
 Lemma carry_gfrag c : forall ix c', carry c ix = Ok c' -> gfrag c' = gfrag c.
 Proof.
   induction c as [dt shape data| |w o c IHc|w s e c IHc|c size zl IHc|w ix0 c IHc|w ix0 c IHc|m vw c IHc
                  |m vw lsb n c IHc|c IHc|w t ix0 cs IHcs|cs ks n IHcs|arr rn c IHc] using content_ind';
-    intros ix c' H; cbn [carry] in H.
+    intros ix c' H; try rewrite carry_Record in H; cbn [carry] in H.
   - destruct shape as [|n dims]; [discriminate|]. apply bind_Ok in H as (rows & _ & H). inversion H.
     cbn [gfrag]. destruct dims; reflexivity.
   - destruct ix; [|discriminate]. inversion H. reflexivity.
@@ -127,28 +203,32 @@ Proof.
     cbn [gfrag]. apply (IHc _ _ Hc).
   - apply bind_Ok in H as (j & _ & H). inversion H. reflexivity.
   - apply bind_Ok in H as (j & _ & H). inversion H. reflexivity.
-  - apply bind_Ok in H as (m' & _ & H). apply bind_Ok in H as (c'' & Hc & H). inversion H. cbn [gfrag]. apply (IHc _ _ Hc).
+  - apply bind_Ok in H as (m' & _ & H). apply bind_Ok in H as (c'' & Hc & H). inversion H. cbn [gfrag]. rewrite (IHc _ _ Hc), (carry_rec_fields_ok _ _ _ Hc). reflexivity.
   - apply bind_Ok in H as (bm & _ & H). apply bind_Ok in H as (m' & _ & H).
-    apply bind_Ok in H as (c'' & Hc & H). inversion H. cbn [gfrag]. apply (IHc _ _ Hc).
-  - apply bind_Ok in H as (c'' & Hc & H). inversion H. cbn [gfrag]. apply (IHc _ _ Hc).
+    apply bind_Ok in H as (c'' & Hc & H). inversion H. cbn [gfrag]. rewrite (IHc _ _ Hc), (carry_rec_fields_ok _ _ _ Hc). reflexivity.
+  - apply bind_Ok in H as (c'' & Hc & H). inversion H. cbn [gfrag]. rewrite (IHc _ _ Hc), (carry_rec_fields_ok _ _ _ Hc). reflexivity.
   - apply bind_Ok in H as (t' & _ & H). apply bind_Ok in H as (j & _ & H). inversion H. reflexivity.
-  - destruct (forallb _ ix); [|discriminate]. apply bind_Ok in H as (cs' & _ & H). inversion H. reflexivity.
+  - destruct (forallb _ ix); [|discriminate]. apply bind_Ok in H as (cs' & Hcs & H). inversion H.
+    apply eq_true_iff_eq. rewrite !gfrag_Record. clear H H1. revert cs' Hcs.
+    induction IHcs as [|x xs Hx _ IH]; intros cs' Hcs; cbn [mapM] in Hcs.
+    + inversion Hcs. split; constructor.
+    + apply bind_Ok in Hcs as (y & Hy & Hcs). apply bind_Ok in Hcs as (ys & Hys & Hcs). inversion Hcs; subst.
+      specialize (IH _ Hys). split; intros HF; inversion HF; subst; constructor.
+      * rewrite <- (Hx _ _ Hy). assumption.
+      * apply IH. assumption.
+      * rewrite (Hx _ _ Hy). assumption.
+      * apply IH. assumption.
   - apply bind_Ok in H as (c'' & Hc & H). inversion H. cbn [gfrag]. destruct arr; [reflexivity|]. apply (IHc _ _ Hc).
 Qed.
 
 Lemma gfrag_frag1 c : gfrag c = true -> frag1 c = true.
 Proof.
-  induction c using content_ind'; cbn [gfrag frag1]; auto; try discriminate.
-  destruct arr; [discriminate|]. exact IHc.
+  induction c using content_ind'; cbn [gfrag frag1]; auto; try discriminate;
+    try (intros Hf; apply andb_true_iff in Hf as [_ Hf]; auto).
+  - intros Hf. apply gfrag_all in Hf. apply frag1_all. rewrite Forall_forall in *. intros x Hx. apply H; auto.
+  - destruct arr; [discriminate|]. exact IHc.
 Qed.
 
-(* no records in this fragment *)
-Lemma gfrag_not_rec c : forall p, gfrag c = true -> is_rec (type_of_p p c) = false.
-Proof.
-  unfold is_rec. induction c using content_ind'; intros p Hf; cbn [gfrag] in Hf; try discriminate; cbn [type_of_p so_ty]; auto.
-  - destruct shape as [|n [|? ?]]; try discriminate. reflexivity.
-  - destruct arr; [discriminate|]. apply IHc, Hf.
-Qed.
 Lemma er_is_rec T U : er T = er U -> is_rec T = is_rec U.
 Proof.
   intros H. pose proof (er_view T U H) as Hv. unfold is_rec.
@@ -239,15 +319,15 @@ Proof.
 Qed.
 
 Lemma lnode_view2 c T xs :
-  Valid None c -> gfrag c = true -> lnode c = true -> to_list c = Ok xs -> er T = er (type_of c) ->
-  exists bs cc vs0 ls t,
+  Valid None c -> gfrag c = true -> lnode c = true -> to_list c = Ok xs -> optwrap T (type_of c) ->
+  exists bs cc vs0 ls,
     list_bounds c = Ok (bs, cc) /\ Valid None cc /\ gfrag cc = true /\ to_list cc = Ok vs0 /\
-    mapM (cut1 vs0) bs = Ok ls /\ xs = map VList ls /\ so_ty T = TList (rsize c) None t /\ er t = er (type_of cc).
+    mapM (cut1 vs0) bs = Ok ls /\ xs = map VList ls /\ so_ty T = TList (rsize c) None (type_of cc).
 Proof.
   intros HV Hfr Hn Hl HT.
   destruct (lnode_view c xs HV Hn Hl) as (bs & cc & vs0 & ls & Hb & HVc & Hl0 & Hcut & -> & Hty).
-  rewrite Hty in HT. pose proof (er_view T _ HT) as Hv. cbn [so_ty] in Hv. destruct Hv as (t & HsT & Het).
-  exists bs, cc, vs0, ls, t. repeat split; try assumption. eapply gfrag_list_content; eassumption.
+  exists bs, cc, vs0, ls. repeat split; try assumption; [eapply gfrag_list_content; eassumption|].
+  rewrite (ow_so_ty _ _ HT), Hty. reflexivity.
 Qed.
 
 Lemma wrap_at_err n i e : wrap_at n i = Err e -> e = EValue.
@@ -267,19 +347,24 @@ Section ListNode.
   Variables (tail : list item).
   (* the induction hypothesis for the rest of the tuple, for all sufficient fuels *)
   Variable (Nm Ns : nat) (K : Z).
-  Hypothesis IH : forall fm fs c T xs, (Nm <= fm)%nat -> (Ns <= fs)%nat -> tdepth T <= K ->
-    Valid None c -> gfrag c = true -> to_list c = Ok xs -> er T = er (type_of c) ->
+  (* side condition on the element type that the rest of the tuple needs *)
+  Variable Q : ty -> Prop.
+  Hypothesis IH : forall fm fs c T xs, (Nm <= fm)%nat -> (Ns <= fs)%nat -> tdepth T <= K -> Q T ->
+    Valid None c -> gfrag c = true -> to_list c = Ok xs -> optwrap T (type_of c) ->
     R (zlen xs) (gn fm c tail None) (se_ fs T xs tail None).
 
   Lemma list_node_IAt fm fs c T xs i : (Nm <= fm)%nat -> (Ns <= fs)%nat -> tdepth T <= K + 1 ->
-    Valid None c -> gfrag c = true -> lnode c = true -> to_list c = Ok xs -> er T = er (type_of c) ->
+    (forall sz t, so_ty T = TList sz None t -> Q t) ->
+    Valid None c -> gfrag c = true -> lnode c = true -> to_list c = Ok xs -> optwrap T (type_of c) ->
     R (zlen xs) (gn (S fm) c (IAt i :: tail) None) (se_ (S fs) T xs (IAt i :: tail) None).
   Proof.
-    intros Hfm Hfs HK HV Hfr Hn Hl HT.
-    destruct (lnode_view2 c T xs HV Hfr Hn Hl HT) as (bs & cc & vs0 & ls & t & Hb & HVc & Hfc & Hl0 & Hcut & -> & HsT & Het).
+    intros Hfm Hfs HK HQ HV Hfr Hn Hl HT.
+    destruct (lnode_view2 c T xs HV Hfr Hn Hl HT) as (bs & cc & vs0 & ls & Hb & HVc & Hfc & Hl0 & Hcut & -> & HsT).
+    set (t := type_of cc) in *.
     assert (HKt : tdepth t <= K) by (rewrite (tdepth_list' _ _ _ HsT) in HK; lia).
+    assert (HQt : Q t) by (eapply HQ, HsT).
     rewrite (se_at_list _ _ _ (IAt i) _ _ _ _ _ eq_refl HsT (as_list_lists ls)).
-    rewrite gn_list_IAt by exact Hn. rewrite sg_IAt, Hb. cbn [bind fst snd].
+    rewrite gn_list_IAt by exact Hn. rewrite sg_IAt by (rewrite has_none_somes; reflexivity). rewrite Hb. cbn [bind fst snd].
     destruct (szchk (rsize c) i) as [[]|e] eqn:Esz; cbn [bind]; [|apply szchk_err in Esz; subst; split; reflexivity].
     rewrite present_somes. fold (at_spec i). fold (at_model i).
     destruct (at_step vs0 bs ls i Hcut) as [Hs Hr]. rewrite Hs.
@@ -290,8 +375,8 @@ Section ListNode.
     assert (HVn : Valid None nc).
     { apply (carry_valid cc vs0 ks nc HVc Hl0); [rewrite <- (to_list_len _ _ Hl0); exact Hr|exact Hnc]. }
     assert (Hfn : gfrag nc = true) by (rewrite (carry_gfrag _ _ _ Hnc); exact Hfc).
-    assert (Hetn : er t = er (type_of nc)) by (rewrite (carry_type_of _ _ _ Hnc); exact Het).
-    pose proof (IH fm fs nc t xs' Hfm Hfs HKt HVn Hfn Hlnc Hetn) as HR. cbn [present_adv].
+    assert (Hetn : optwrap t (type_of nc)) by (rewrite (carry_type_of _ _ _ Hnc); apply ow_refl).
+    pose proof (IH fm fs nc t xs' Hfm Hfs HKt HQt HVn Hfn Hlnc Hetn) as HR. cbn [present_adv].
     assert (Hlen : zlen xs' = zlen ls).
     { rewrite (mapM_zlen _ _ _ Hxs'), (mapM_zlen _ _ _ Hks). symmetry. apply (mapM_zlen _ _ _ Hcut). }
     rewrite zlen_map.
@@ -302,12 +387,15 @@ Section ListNode.
   Qed.
 
   Lemma list_node_IRange fm fs c T xs a b st : (Nm <= fm)%nat -> (Ns <= fs)%nat -> tdepth T <= K + 1 ->
-    Valid None c -> gfrag c = true -> lnode c = true -> to_list c = Ok xs -> er T = er (type_of c) ->
+    (forall sz t, so_ty T = TList sz None t -> Q t) ->
+    Valid None c -> gfrag c = true -> lnode c = true -> to_list c = Ok xs -> optwrap T (type_of c) ->
     R (zlen xs) (gn (S fm) c (IRange a b st :: tail) None) (se_ (S fs) T xs (IRange a b st :: tail) None).
   Proof.
-    intros Hfm Hfs HK HV Hfr Hn Hl HT.
-    destruct (lnode_view2 c T xs HV Hfr Hn Hl HT) as (bs & cc & vs0 & ls & t & Hb & HVc & Hfc & Hl0 & Hcut & -> & HsT & Het).
+    intros Hfm Hfs HK HQ HV Hfr Hn Hl HT.
+    destruct (lnode_view2 c T xs HV Hfr Hn Hl HT) as (bs & cc & vs0 & ls & Hb & HVc & Hfc & Hl0 & Hcut & -> & HsT).
+    set (t := type_of cc) in *.
     assert (HKt : tdepth t <= K) by (rewrite (tdepth_list' _ _ _ HsT) in HK; lia).
+    assert (HQt : Q t) by (eapply HQ, HsT).
     rewrite (se_at_list _ _ _ (IRange a b st) _ _ _ _ _ eq_refl HsT (as_list_lists ls)).
     rewrite gn_list_IRange by exact Hn. rewrite sg_IRange, Hb. cbn [bind fst snd]. cbv zeta.
     destruct (stepof st =? 0) eqn:Es; [split; reflexivity|].
@@ -321,8 +409,8 @@ Section ListNode.
     assert (HVn : Valid None nc).
     { apply (carry_valid cc vs0 (concat pm) nc HVc Hl0); [rewrite <- (to_list_len _ _ Hl0); exact Hrange|exact Hnc]. }
     assert (Hfn : gfrag nc = true) by (rewrite (carry_gfrag _ _ _ Hnc); exact Hfc).
-    assert (Hetn : er t = er (type_of nc)) by (rewrite (carry_type_of _ _ _ Hnc); exact Het).
-    pose proof (IH fm fs nc t (concat pk) Hfm Hfs HKt HVn Hfn Hlnc Hetn) as HR.
+    assert (Hetn : optwrap t (type_of nc)) by (rewrite (carry_type_of _ _ _ Hnc); apply ow_refl).
+    pose proof (IH fm fs nc t (concat pk) Hfm Hfs HKt HQt HVn Hfn Hlnc Hetn) as HR.
     rewrite (mapM_mapM_lens _ _ _ Hpk). rewrite zlen_map.
     destruct (gn fm nc tail None) as [c'|e]; cbn [R] in *.
     - destruct HR as (t' & ws & -> & Ht' & Hl' & Hz). cbn [bind fst snd].
@@ -338,11 +426,12 @@ End ListNode.
 
 (* ---------------------------------------------------------------- a positional item at a leaf *)
 Lemma leaf_positional fm fs c T xs head tail :
-  gfrag c = true -> lnode c = false -> wd c = O -> er T = er (type_of c) -> positional head = true ->
+  gfrag c = true -> lnode c = false -> wd c = O -> optwrap T (type_of c) -> is_rec T = false -> positional head = true ->
   R (zlen xs) (gn (S fm) c (head :: tail) None) (se_ fs T xs (head :: tail) None).
 Proof.
-  intros Hfr Hn Hw HT Hp. pose proof (er_view T _ HT) as Hv.
+  intros Hfr Hn Hw HT Hrec Hp. pose proof (er_view T _ (ow_er _ _ HT)) as Hv.
   destruct c; try discriminate.
+  3:{ exfalso. unfold is_rec in Hrec. rewrite (ow_so_ty _ _ HT) in Hrec. cbn in Hrec. discriminate. }
   - cbn [gfrag] in Hfr. destruct shape as [|n [|? ?]]; try discriminate.
     rewrite gn_numpy1 by exact Hp. cbn [type_of type_of_p tl numpy_ty so_ty] in Hv.
     rewrite se_at_leaf; [split; reflexivity|exact Hp|left; eauto].
@@ -380,17 +469,18 @@ Proof. destruct m; reflexivity. Qed.
 Section Wrapper.
   Variables (head : item) (tail : list item).
   Hypothesis Hbasic : basic_item head = true.
+  Hypothesis Hnoarr : has_array tail = false.
   Let Hpos : positional head = true.
   Proof. destruct head; try discriminate; reflexivity. Qed.
 
   Variables (fm fs : nat) (c : content) (T : ty).
   (* what is known for nodes with fewer wrappers *)
   Hypothesis IHp : forall p xs,
-    Valid None p -> gfrag p = true -> (wd p < wd c)%nat -> to_list p = Ok xs -> er T = er (type_of p) ->
+    Valid None p -> gfrag p = true -> (wd p < wd c)%nat -> to_list p = Ok xs -> optwrap T (type_of p) ->
     R (zlen xs) (gn fm p (head :: tail) None) (se_ (S fs) T xs (head :: tail) None).
 
   Lemma indexed_step xs :
-    Valid None c -> gfrag c = true -> (exists w ix c0, c = Indexed w ix c0) -> to_list c = Ok xs -> er T = er (type_of c) ->
+    Valid None c -> gfrag c = true -> (exists w ix c0, c = Indexed w ix c0) -> to_list c = Ok xs -> optwrap T (type_of c) ->
     R (zlen xs) (gn (S fm) c (head :: tail) None) (se_ (S fs) T xs (head :: tail) None).
   Proof.
     intros HV Hfr (w & ix & c0 & ->) Hl HT. inversion HV; subst.
@@ -400,13 +490,13 @@ Section Wrapper.
     rewrite gn_Indexed by exact Hpos. rewrite Hp. cbn [bind].
     apply IHp; try assumption.
     - eapply carry_valid; eassumption.
-    - rewrite (carry_gfrag _ _ _ Hp). exact Hfr.
+    - rewrite (carry_gfrag _ _ _ Hp). cbn [gfrag] in Hfr. apply andb_true_iff in Hfr as [_ Hfr]. exact Hfr.
     - rewrite (carry_wd _ _ _ Hp). cbn [wd]. lia.
     - rewrite (carry_type_of _ _ _ Hp). exact HT.
   Qed.
 
   Lemma par_step xs :
-    Valid None c -> gfrag c = true -> (exists a rn c0, c = Par a rn c0) -> to_list c = Ok xs -> er T = er (type_of c) ->
+    Valid None c -> gfrag c = true -> (exists a rn c0, c = Par a rn c0) -> to_list c = Ok xs -> optwrap T (type_of c) ->
     R (zlen xs) (gn (S fm) c (head :: tail) None) (se_ (S fs) T xs (head :: tail) None).
   Proof.
     intros HV Hfr (a & rn & c0 & ->) Hl HT. cbn [gfrag] in Hfr. destruct a; [discriminate|]. inversion HV; subst.
@@ -422,26 +512,24 @@ Section Wrapper.
   Qed.
 
   Lemma option_step xs :
-    Valid None c -> gfrag c = true -> is_opt c = true -> to_list c = Ok xs -> er T = er (type_of c) ->
+    Valid None c -> gfrag c = true -> is_opt c = true -> to_list c = Ok xs -> optwrap T (type_of c) -> is_rec T = false ->
     R (zlen xs) (gn (S fm) c (head :: tail) None) (se_ (S fs) T xs (head :: tail) None).
   Proof.
-    intros HV Hfr Ho Hl HT.
+    intros HV Hfr Ho Hl HT Hrec.
     destruct (option_view c xs HV Ho Hl) as (ix & vs0 & Hoi & HVc & Hno & Hl0 & Hpick & Hty).
     destruct (pick_present vs0 ix xs Hpick) as (ys & Hys & ->).
     pose proof (gather_range_inv _ _ _ Hys) as Hrange. rewrite (to_list_len _ _ Hl0) in Hrange.
     destruct (carry_spec (opt_content c) vs0 _ HVc Hl0 Hrange) as (p & Hp & Hlp & _). rewrite Hys in Hlp.
     assert (HVp : Valid None p) by (eapply carry_valid; eassumption).
-    assert (Hfc : gfrag (opt_content c) = true) by (destruct c; try discriminate; exact Hfr).
+    assert (Hfc : gfrag (opt_content c) = true) by (destruct c; try discriminate; cbn [gfrag] in Hfr; apply andb_true_iff in Hfr as [_ Hfr]; exact Hfr).
     assert (Hfp : gfrag p = true) by (rewrite (carry_gfrag _ _ _ Hp); exact Hfc).
     assert (Hwp : (wd p < wd c)%nat) by (rewrite (carry_wd _ _ _ Hp); destruct c; try discriminate; cbn [wd opt_content]; lia).
-    assert (HTp : er T = er (type_of p)) by (rewrite (carry_type_of _ _ _ Hp), HT, Hty; reflexivity).
+    assert (HTp : optwrap T (type_of p)) by (rewrite (carry_type_of _ _ _ Hp); apply ow_strip; rewrite <- Hty; exact HT).
     assert (Hnn : forall y, In y ys -> y <> VNone).
     { apply (nonone_values p ys HVp (gfrag_frag1 _ Hfp)); [|exact Hlp].
       destruct (carry_class _ _ _ Hp) as [-> _]. exact Hno. }
     pose proof (IHp p ys HVp Hfp Hwp Hlp HTp) as HR.
     rewrite gn_option by assumption. rewrite Hoi. cbn [bind fst adv_present]. rewrite Hp. cbn [bind].
-    assert (Hrec : is_rec T = false).
-    { rewrite (er_is_rec _ _ HT). apply gfrag_not_rec, Hfr. }
     rewrite se_down in HR |- * by assumption.
     assert (Hlen : length ys = ntrue (keys_ix ix)) by (rewrite ntrue_keys_ix; apply (mapM_length _ _ _ Hys)).
     assert (Hz : zlen (bmerge VNone (keys_ix ix) ys) = zlen ix).
@@ -458,7 +546,7 @@ Section Wrapper.
     assert (Hsg : sg (S fs) (str_of_ty T) sz t ls (head :: tail) None =
                   do r <- sg (S fs) (str_of_ty T) sz t (map Some pl) (head :: tail) None; Ok (fst r, reinsert ls (snd r))).
     { rewrite <- (present_bmerge (keys_ix ix) pl Hlpl). fold ls.
-      destruct head; try discriminate; [apply sg_present_IAt|apply sg_present_IRange]. }
+      destruct head; try discriminate; [apply sg_present_IAt, Hnoarr|apply sg_present_IRange]. }
     rewrite Hsg. rewrite Hz.
     destruct (gn fm p (head :: tail) None) as [c'|e]; cbn [R bind] in *.
     - destruct HR as (t' & ws & -> & Ht' & Hl' & Hzw). cbn [bind fst snd].
@@ -475,17 +563,20 @@ End Wrapper.
 Section Positional.
   Variables (head : item) (tail : list item).
   Hypothesis Hbasic : basic_item head = true.
+  Hypothesis Hnoarr : has_array tail = false.
   Variable (Nm Ns : nat) (K : Z).
-  Hypothesis IH : forall fm fs c T xs, (Nm <= fm)%nat -> (Ns <= fs)%nat -> tdepth T <= K ->
-    Valid None c -> gfrag c = true -> to_list c = Ok xs -> er T = er (type_of c) ->
+  Variable Q : ty -> Prop.
+  Hypothesis IH : forall fm fs c T xs, (Nm <= fm)%nat -> (Ns <= fs)%nat -> tdepth T <= K -> Q T ->
+    Valid None c -> gfrag c = true -> to_list c = Ok xs -> optwrap T (type_of c) ->
     R (zlen xs) (gn fm c tail None) (se_ fs T xs tail None).
 
   Lemma positional_step : forall k fm fs c T xs,
     (wd c <= k)%nat -> (k + 1 + Nm <= fm)%nat -> (1 + Ns <= fs)%nat -> tdepth T <= K + 1 ->
-    Valid None c -> gfrag c = true -> to_list c = Ok xs -> er T = er (type_of c) ->
+    is_rec T = false -> (forall sz t, so_ty T = TList sz None t -> Q t) ->
+    Valid None c -> gfrag c = true -> to_list c = Ok xs -> optwrap T (type_of c) ->
     R (zlen xs) (gn fm c (head :: tail) None) (se_ fs T xs (head :: tail) None).
   Proof.
-    induction k as [|k IHk]; intros fm fs c T xs Hw Hfm Hfs HK HV Hfr Hl HT;
+    induction k as [|k IHk]; intros fm fs c T xs Hw Hfm Hfs HK Hrec HQ HV Hfr Hl HT;
       (destruct fm as [|fm]; [lia|]); (destruct fs as [|fs]; [lia|]).
     - destruct (lnode c) eqn:Hn.
       + destruct head; try discriminate.
@@ -493,7 +584,7 @@ Section Positional.
         * eapply list_node_IRange; [exact IH|lia|lia|assumption..].
       + apply leaf_positional; try assumption; [lia|]. destruct head; try discriminate; reflexivity.
     - assert (IHp : forall p xs0, Valid None p -> gfrag p = true -> (wd p < wd c)%nat -> to_list p = Ok xs0 ->
-                      er T = er (type_of p) ->
+                      optwrap T (type_of p) ->
                       R (zlen xs0) (gn fm p (head :: tail) None) (se_ (S fs) T xs0 (head :: tail) None)).
       { intros p xs0 HVp Hfp Hwp Hlp HTp. apply IHk; try assumption; lia. }
       destruct c; cbn [gfrag] in Hfr; try discriminate.
@@ -510,6 +601,7 @@ Section Positional.
       + eapply option_step; try eassumption. reflexivity.
       + eapply option_step; try eassumption. reflexivity.
       + eapply option_step; try eassumption. reflexivity.
+      + apply leaf_positional; try assumption; try reflexivity. destruct head; try discriminate; reflexivity.
       + eapply par_step; try eassumption. eauto.
   Qed.
 End Positional.
